@@ -405,4 +405,37 @@ example : bracketIndices (1/4503599627370496) 1 none [(0, 1/4), (100, 1/2)] [50,
     = .ok ([50, 100, 150].map (bracketIndex (1/4503599627370496) 1 none [(0, 1/4), (100, 1/2)])) :=
   (C08_vector_pointwise _ _ _ _ _).2 (by simp) (by simp)
 
+/-- an array of factors (one per base, `numpy.ones(len) * factor`): element `j` is the scalar
+computation with its own factor — and a constant array is the scalar factor -/
+theorem C08_vector_factor (rd : Option Nat) (s : Scale) (bs : List Rat) :
+    (∀ efs : List (Rat × Rat), efs.length = bs.length →
+      calcMRVecF efs rd s bs = .ok (List.zipWith (fun ef b => calcMR ef.1 ef.2 rd s b) efs bs) ∧
+      (s ≠ [] → bs ≠ [] →
+        bracketIndicesF efs rd s bs = .ok (List.zipWith (fun ef b => bracketIndex ef.1 ef.2 rd s b) efs bs))) ∧
+    ∀ ε f : Rat, calcMRVecF (bs.map (fun _ => (ε, f))) rd s bs = .ok (calcMRVec ε f rd s bs) := by
+  constructor
+  · intro efs hlen
+    constructor
+    · unfold calcMRVecF
+      simp [hlen]
+    · intro h1 h2
+      unfold bracketIndicesF
+      cases s with
+      | nil => exact absurd rfl h1
+      | cons a s =>
+        cases bs with
+        | nil => exact absurd rfl h2
+        | cons b bs => simp [hlen]
+  · intro ε f
+    unfold calcMRVecF
+    simp only [List.length_map, ne_eq, not_true_eq_false, if_false]
+    rw [(C08_vector_pointwise ε f rd s bs).1]
+    congr 1
+    induction bs with
+    | nil => rfl
+    | cons b bs ih => simp only [List.map_cons, List.zipWith_cons_cons, ih]
+
+example : calcMRVecF [(0, 1), (0, 2), (0, 1/2)] none [(0, 1/4), (100, 1/2), (300, 1)] [50, 150, 400]
+    = .ok [25/2, 75/2, 625/2] := by decide +kernel
+
 end OFCore
